@@ -38,7 +38,7 @@ func want(p []Seg, c cur) (byte, bool) {
 
 func adv(p []Seg, c cur) cur {
 	if p[c.i].K == "var" {
-		return c
+		return cur{c.i, 1} // o=1: at least one byte consumed in this var segment
 	}
 	return norm(p, cur{c.i, c.o + 1})
 }
@@ -66,7 +66,8 @@ const filler = '1' // a decimal digit, so that witnesses also fit textual (decim
 
 // collide searches the product automaton. self=true: same kind against itself, only accept when the two
 // segmentations differ (=> the parameter tuples differ).
-func collide(a, b []Seg, self bool) (*Witness, int) {
+// minVar (0|1): minimal length of every var segment in the witness.
+func collide(a, b []Seg, self bool, minVar int) (*Witness, int) {
 	start := pstate{a: norm(a, cur{}), b: norm(b, cur{})}
 	parent := map[pstate]pedge{}
 	seen := map[pstate]bool{start: true}
@@ -100,10 +101,10 @@ func collide(a, b []Seg, self bool) (*Witness, int) {
 			}
 		}
 		// epsilon moves: leave a var segment
-		if !endA && a[s.a.i].K == "var" {
+		if !endA && a[s.a.i].K == "var" && s.a.o >= minVar {
 			push(pstate{a: norm(a, cur{s.a.i + 1, 0}), b: s.b}, pedge{leaveA: true})
 		}
-		if !endB && b[s.b.i].K == "var" {
+		if !endB && b[s.b.i].K == "var" && s.b.o >= minVar {
 			push(pstate{a: s.a, b: norm(b, cur{s.b.i + 1, 0})}, pedge{leaveB: true})
 		}
 		if endA || endB {
@@ -154,6 +155,19 @@ func collide(a, b []Seg, self bool) (*Witness, int) {
 		}
 	}
 	return w, explored
+}
+
+// collidePreferNonEmpty prefers a witness whose variable segments are all non-empty (more likely to be accepted
+// by the real helpers when replayed); the decision collide / disjoint is the one of the unrestricted search.
+func collidePreferNonEmpty(a, b []Seg, self bool) (*Witness, int) {
+	w0, n0 := collide(a, b, self, 0)
+	if w0 == nil {
+		return nil, n0
+	}
+	if w1, n1 := collide(a, b, self, 1); w1 != nil {
+		return w1, n0 + n1
+	}
+	return w0, n0
 }
 
 // build concatenates concrete segment values according to the schema (used to cross-check witnesses).
